@@ -36,10 +36,16 @@ def gen_world(rng):
     fields = []
     kinds = []
     for i in range(nf):
-        k = rng.choice(['u8', 'u8', 'u16', 'str', 'bits'])
-        if k == 'bits' and kinds and kinds[-1] == 'bits':
+        k = rng.choice(['u8', 'u8', 'u16', 'str', 'bits', 'bits7'])
+        if k in ('bits', 'bits7') and kinds and kinds[-1] == 'bits':
             k = 'u8'      # (whether two adjacent groups of bit fields share a byte is a layout question of C10, not generated here)
         kinds.append(k)
+        if k == 'bits7':
+            # a group that ends at bit 7: whatever follows (another bit group as well) starts in the next byte; the numeric read used
+            # by conditions has to track that like the normal decode does (seeded change C13/7)
+            fields.append({'name': 'f%da' % i, 'kind': 'bit', 'type': 'BI0:1', 'first': 0, 'nbits': 1, 'lead': True})
+            fields.append({'name': 'f%db' % i, 'kind': 'bit', 'type': 'BI6:2', 'first': 6, 'nbits': 2, 'lead': False})
+            continue
         if k == 'bits':
             # two bit fields sharing one byte (the fields behind them start one byte later, not two)
             fields.append({'name': 'f%da' % i, 'kind': 'bit', 'type': 'BI0:1', 'first': 0, 'nbits': 1, 'lead': True})
@@ -351,7 +357,7 @@ def main():
     c.coverage.update({
         'evaluations': int(tot.get('evaluations', 0)),
         'distinct_nontrivial': int(tot.get('nontrivial', 0)),
-        'rule': 'worlds = referenced message with 1..4 fields (UCH/UIN/STR/bit pairs), in half of the worlds a second referenced message and in 40%% a '
+        'rule': 'worlds = referenced message with 1..4 fields (UCH/UIN/STR/bit pairs BI0:1+BI1:2 or BI0:1+BI6:2, the latter ending at bit 7 so that another bit group may follow in the next byte), in half of the worlds a second referenced message and in 40%% a '
                 'same-named write sibling whose telegrams invalidate the cached state (MessageMap::invalidateCache as in BusHandler) + 1..5 conditions of shapes list/range/<,>,<=,>=/string list/'
                 'no value/unnamed field/missing field/wrong kind/missing message + conditional messages (single, on-the-fly derived [c=v], '
                 'combined [a][b]); histories of 30 steps: storeLastData of random values (60%%) or isAvailable()/find(master) queries, clock steps '
